@@ -5,8 +5,8 @@ from ..index import AnalysisError, dotted
 from ..astutil import text, short, endswith, calls_in, walk_no_nested
 from ..dataflow import DefUse
 from .. import events as E
-from .c01 import INVERSE, undo_ctor_of
-from ._h_E import Flow, arg, argn, nargs
+from .c01 import INVERSE, undo_ctor_of, undo_records
+from ._h_E import Flow, arg, argn, nargs, mutation_nodes_deep
 
 EXPLANATION = (
   "Decides that the rollback path exists on every failing path and can work: apply_user_actions "
@@ -113,13 +113,12 @@ def r2_undo_first(run, w):
   for an in RECORD_ACTIONS:
     fn = w.fn("docactions.DocActions." + an)
     cfg = fn.cfg
-    muts = E.mutation_nodes(fn)
+    muts = mutation_nodes_deep(w, fn, exclude=set(w.doc_action_names()))
     prim = set()
-    for (n, c, nm) in fn.calls():
-      if E.is_undo_record(c, nm, fn):
-        k = undo_ctor_of(fn, c, names)
-        if k and k[0] in INVERSE[an][0]:
-          prim.add(n.id)
+    for (n, c, x) in undo_records(w, fn):
+      k = undo_ctor_of(fn, c, names, expr=x)
+      if k and k[0] in INVERSE[an][0]:
+        prim.add(n.id)
     if not muts:
       raise AnalysisError("%s: no mutation recognised" % fn.qualname)
     bad = [m for m in sorted(muts) if not cfg.dominated_by(m, prim)]
@@ -159,24 +158,18 @@ def r3_schema_restore(run, w):
   def is_schema_action(e, i):
     if isinstance(e, ast.Compare) and len(e.ops) == 1 and isinstance(e.ops[0], ast.In) and \
         endswith(dotted(e.comparators[0]), "schema_actions"):
-      if e not in seen_tests:
-        seen_tests.append(e)
+      if not any(x is e.left for (x, _) in seen_tests):
+        seen_tests.append((e.left, i))
       return True
     return False
-  def not_schema_action(e, i):
-    if isinstance(e, ast.Compare) and len(e.ops) == 1 and isinstance(e.ops[0], ast.NotIn) and \
-        endswith(dotted(e.comparators[0]), "schema_actions"):
-      if e not in seen_tests:
-        seen_tests.append(e)
-      return True
-    return False
-  edges = flow.edges_where(is_schema_action, True) | flow.edges_where(not_schema_action, False)
+  edges = flow.edges_where(is_schema_action, True)
   if len(seen_tests) != 1 or not edges:
     raise AnalysisError("apply_doc_action: `action_name in actions.schema_actions` test not found")
   tnode = cfg.nodes[next(iter(edges))[0]]
-  tested = seen_tests[0].left
-  run.ob(R3, fn.qualname, short(seen_tests[0]), "the protection test is on the applied action's "
-         "own type name", names_own_type(tested, tnode.id), fi=fn.fi, node=tnode.stmt)
+  tested, tested_at = seen_tests[0]
+  run.ob(R3, fn.qualname, "%s in actions.schema_actions" % text(tested),
+         "the protection test is on the applied action's "
+         "own type name", names_own_type(tested, tested_at), fi=fn.fi, node=tnode.stmt)
   # clone nodes: <var> = schema.clone_schema(self.schema)
   def is_clone(x, k=None):
     return isinstance(x, ast.Call) and endswith(dotted(x.func), "clone_schema") and \
@@ -220,50 +213,81 @@ def r3_schema_restore(run, w):
          bool(tr.handlers) and _catch_all(tr.handlers[0]), fi=fn.fi, node=tr)
   h = tr.handlers[0] if tr.handlers else None
   if h is not None:
-    clone_vars = set(clones.values())
-    restore = [s for s in ast.walk(ast.Module(body=h.body, type_ignores=[]))
-               if isinstance(s, ast.Assign) and text(s.targets[0]) == "self.schema"]
-    ok = len(restore) == 1
-    if ok:
-      for k in flow.where(restore[0]):
-        ls = flow.leaves(restore[0].value, k)
-        ok = ok and any(is_clone(l.expr) for l in ls) and \
-            all(is_clone(l.expr) or (isinstance(l.expr, ast.Constant) and l.expr.value is None)
-                for l in ls)
+    hn = [n for n in cfg.nodes if n.kind == "handler" and n.stmt is h][0]
+    hbody = {id(x) for s_ in h.body for x in ast.walk(s_)}
+    def clone_value(e, k):
+      """`e` (evaluated at node k of apply_doc_action) is this call's clone (or the None standing
+      for 'no clone taken')."""
+      ls = flow.leaves(e, k)
+      return any(is_clone(l.expr) for l in ls) and \
+          all(is_clone(l.expr) or (isinstance(l.expr, ast.Constant) and l.expr.value is None)
+              for l in ls)
+    def only_if_cloned(k):
+      """Inside the handler, node k is conditional only on a clone having been taken."""
+      ok_ = True
+      for (t, pol, i) in flow.required_facts(k):
+        if id(cfg.nodes[i].stmt) not in hbody:
+          continue     # a test outside the handler
+        ok_ = ok_ and pol is True and isinstance(t, ast.Name) and \
+            any(is_clone(l.expr) for l in flow.leaves(t, i))
+      return ok_
+    def forced_rebuild(rfn, rcfg, rnodes, start):
+      """From every restore node, on every path, rebuild_usercode() runs with rebuilding forced."""
+      forced = {n.id for n in rcfg.nodes if n.kind == "stmt" and isinstance(n.stmt, ast.Assign)
+                and text(n.stmt.targets[0]) == "self._should_rebuild_usercode" and
+                isinstance(n.stmt.value, ast.Constant) and n.stmt.value.value is True}
+      rebuild = rfn.nodes_calling(lambda c, nm, f: nm == "self.rebuild_usercode", rcfg)
+      if start is not None:
+        rebuild = {r for r in rebuild if r in rcfg.reach_after({start})}
+      return bool(rnodes) and bool(rebuild) and all(
+        rcfg.postdominated_by(r, rebuild, exits={rcfg.exit.id, rcfg.raise_exit.id})
+        for r in rnodes) and all(rcfg.dominated_by(r, forced) for r in rebuild)
+    def schema_stores(stmts):
+      return [s_ for s_ in ast.walk(ast.Module(body=stmts, type_ignores=[]))
+              if isinstance(s_, ast.Assign) and text(s_.targets[0]) == "self.schema"]
+    restore = schema_stores(h.body)
+    ok_value = ok_rebuild = ok_guard = False
+    if len(restore) == 1:
+      ks = flow.where(restore[0])
+      ok_value = bool(ks) and all(clone_value(restore[0].value, k) for k in ks)
+      ok_rebuild = forced_rebuild(fn, cfg, set(ks), hn.id)
+      ok_guard = all(only_if_cloned(k) for k in ks)
+    elif not restore:
+      # the restore may have been extracted into a helper of the engine called from the handler
+      from ._h_E import own_helper, args_by_params
+      for (n, c, nm) in fn.calls(cfg):
+        if id(n.stmt) not in hbody:
+          continue
+        hlp = own_helper(w, fn, c)
+        if hlp is None:
+          continue
+        hfn = w.fn_of(hlp)
+        hst = schema_stores(hlp.node.body)
+        if len(hst) != 1:
+          continue
+        hflow = Flow(hfn, hfn.xcfg)
+        hps = hlp.params()[1:]
+        b_ = args_by_params(c, hps)
+        hks = hflow.where(hst[0])
+        src = hflow.itext(hst[0].value, hks[0], stop=hps) if hks else None
+        ok_value = b_ is not None and src in hps and src in b_ and clone_value(b_[src], n.id)
+        ok_rebuild = forced_rebuild(hfn, hfn.xcfg, set(hks), None) and \
+            not any(hflow.required_facts(k) for k in hks)
+        ok_guard = only_if_cloned(n.id)
     run.ob(R3, fn.qualname, "self.schema = <this call's clone>",
            "the handler reinstates the copy taken for this very doc action (a local, not state "
-           "shared across doc actions)", ok, fi=fn.fi, node=h)
-    # guarded only by the clone being present
-    hn = [n for n in cfg.nodes if n.kind == "handler" and n.stmt is h][0]
-    rn = {n.id for n in cfg.nodes if n.stmt is not None and restore and n.stmt is restore[0]}
-    forced = {n.id for n in cfg.nodes if n.kind == "stmt" and isinstance(n.stmt, ast.Assign) and
-              text(n.stmt.targets[0]) == "self._should_rebuild_usercode" and
-              isinstance(n.stmt.value, ast.Constant) and n.stmt.value.value is True}
-    rebuild = fn.nodes_calling(lambda c, nm, f: nm == "self.rebuild_usercode", cfg)
-    rebuild_h = {r for r in rebuild if r in cfg.reach_after({hn.id})}
-    ok = bool(rn) and bool(rebuild_h) and all(
-      cfg.postdominated_by(r, rebuild_h, exits={cfg.exit.id, cfg.raise_exit.id}) for r in rn) and \
-      all(cfg.dominated_by(r, forced) for r in rebuild_h)
+           "shared across doc actions)", ok_value, fi=fn.fi, node=h)
     run.ob(R3, fn.qualname, "restore -> _should_rebuild_usercode = True -> rebuild_usercode()",
            "tables and columns are rebuilt from the restored schema even when rebuilding was "
-           "suppressed", ok, fi=fn.fi, node=h)
-    after = cfg.reach_after({hn.id})
+           "suppressed", ok_rebuild, fi=fn.fi, node=h)
     run.ob(R3, fn.qualname, "handler re-raises",
            "the failure still fails the bundle (so apply_user_actions rolls the data back)",
            cfg.exit.id not in cfg.reach_after({hn.id}, removed={n.id for n in cfg.nodes
                                                              if n.kind == "raise_stmt"})
            or _handler_always_raises(cfg, hn, h), fi=fn.fi, node=h)
     # the restore is conditional only on the clone itself
-    hbody = {id(x) for s_ in h.body for x in ast.walk(s_)}
-    ok = True
-    for k in (flow.where(restore[0]) if restore else []):
-      for (t, pol, i) in flow.required_facts(k):
-        if id(cfg.nodes[i].stmt) not in hbody:
-          continue     # a test outside the handler
-        ok = ok and pol is True and isinstance(t, ast.Name) and \
-            any(is_clone(l.expr) for l in flow.leaves(t, i))
     run.ob(R3, fn.qualname, "if <clone>: restore", "the restore is conditional only on a clone "
-           "having been taken", ok, fi=fn.fi, node=h)
+           "having been taken", ok_guard, fi=fn.fi, node=h)
 
 
 def _handler_always_raises(cfg, hn, h):
